@@ -157,6 +157,9 @@ class LoopLevelSetupAwaitOverlapPattern(RewritePattern):
         # also, if there is another launch between us and the loop start, abort
         if any(isinstance(prev_op, accfg.LaunchOp) for prev_op in previous_ops_of(op)):
             return
+        # the same holds for launches nested inside preceding ops: they launch the loop-carried state itself
+        if any(isinstance(use.operation, accfg.LaunchOp) for use in op.in_state.uses):
+            return
 
         # 1. We grab the first setup op inside the loop, with all dependencies
         inputs = get_scoped_setup_inputs(
